@@ -1,8 +1,8 @@
 ------------------------- MODULE TraceBitswapEngine -------------------------
 (* Phases G and T: a recorded run of the real engine (NDJSON: Reset, Recv, Add, Remove, Env, Idle,
    see harness zz_verif_C36_test.go) must be a behaviour of BitswapEngine.  After every event the
-   logged observables (WantlistForPeer of every peer, pending topics of every peer's task queue,
-   envelope contents) must equal what the specification computes; the free choices of the spec
+   logged observables (WantlistForPeer of every peer, the per-CID index of the ledger projected per peer,
+   pending topics of every peer's task queue, envelope contents) must equal what the specification computes; the free choices of the spec
    (which of several equally important wants is evicted / admitted) are read off the log and checked
    for admissibility.  `mode` (any subset of Devs, fixed for the whole trace) is the set of named
    deviations the code under test exhibits; `dev` collects those that actually changed a result. *)
@@ -24,6 +24,9 @@ PerPeer(a, p) == IF p <= Len(a) THEN ToSet(a[p]) ELSE {}
 ViewSet(L, G) == {<<c, L[c].prio, L[c].wt>> : c \in Dom(L)} \cup {<<c, G[c].prio, G[c].wt>> : c \in Dom(G)}
 \* the logged state after the event, compared with the next state of the spec
 WlOK(p)   == PerPeer(Ev.wl, p) = ViewSet(ledger'[p], ghost'[p])
+\* the per-CID index of the ledger (peerLedger.Peers, read by NotifyNewBlocks) holds exactly the consistent
+\* entries: same CIDs, same priority, same want type as the want-list of the peer
+InvOK(p)  == PerPeer(Ev.inv, p) = ViewSet(ledger'[p], EmptyL)
 PendOK(p) == PerPeer(Ev.pend, p) = QDom(q'[p])
 
 TInit == /\ l = 1 /\ mode \in (IF AllModes THEN SUBSET Devs ELSE {{}, Devs})
@@ -60,11 +63,11 @@ TRecv ==
                       Z0   == {c \in t.YT : c \in pa /\ t.Q[c] = NoT}
                       zamb == {c \in t.YT : t.Q[c] # NoT}
                   IN \E ZS \in SUBSET zamb : ReceiveCore(D, p, Ev.full, ents, s, t, X0 \cup XS, Y, Z0 \cup ZS)
-  /\ \A p \in Peers : WlOK(p) /\ (Ev.pk \/ PendOK(p))
+  /\ \A p \in Peers : WlOK(p) /\ InvOK(p) /\ (Ev.pk \/ PendOK(p))
 
 TAdd == /\ IsEvent("Add") /\ Ev.c \in Cids
         /\ AddBlock(mode \cap AddDevs, Ev.c)
-        /\ \A p \in Peers : WlOK(p) /\ (Ev.pk \/ PendOK(p))
+        /\ \A p \in Peers : WlOK(p) /\ InvOK(p) /\ (Ev.pk \/ PendOK(p))
 
 TRemove == IsEvent("Remove") /\ Ev.c \in Cids /\ RemoveBlock(Ev.c)
 
@@ -73,6 +76,7 @@ TEnv == /\ IsEvent("Env") /\ Ev.detail = "" /\ Ev.p \in Peers
         /\ Envelope(mode \cap EnvDevs, Ev.p)
         /\ out'.blocks = ToSet(Ev.blocks) /\ out'.haves = ToSet(Ev.haves) /\ out'.dhs = ToSet(Ev.dhs)
         /\ ToSet(Ev.wl) = ViewSet(ledger'[Ev.p], ghost'[Ev.p])
+        /\ ToSet(Ev.inv) = ViewSet(ledger'[Ev.p], EmptyL)
         /\ ToSet(Ev.pend) = QDom(q'[Ev.p])
 
 \* the engine went idle: every task still queued was popped without producing a message
